@@ -153,6 +153,8 @@ def run(binary, steps, env=None, settle=3.0, final_stop=True):
                         v = int(m.group(1))
                         ev["infotime"] = clamp(v)
                         ev["infotime_overflow"] = v > INT_MAX
+                if kind == "uci":
+                    ev["uciok"] = "uciok" in lines
                 if kind == "go" and not ev["refused"] and ev["error"] == "":
                     accepted_gos[0] += 1
                 if kind in ("show", "d"):
